@@ -1645,6 +1645,11 @@ func (g Gateway) SubscribeToEvents(in *hydrapb.SubscribeToEventsRequest, eventSe
 	// Get the server context
 	hydraInterface := g.ZeusInterface.GetHydra()
 
+	// The callback runs on the goroutine of whichever request changed the swamp, so several
+	// writers can be inside it at the same time. gRPC does not allow concurrent SendMsg calls
+	// on one stream: sendMutex serialises them (it is held for the SendMsg call only).
+	var sendMutex sync.Mutex
+
 	eventCallbackFunction := func(event *swamp.Event) {
 
 		if event == nil {
@@ -1696,14 +1701,17 @@ func (g Gateway) SubscribeToEvents(in *hydrapb.SubscribeToEventsRequest, eventSe
 		}
 
 		// send the message to the client
-		if sendErr := eventServer.SendMsg(&hydrapb.SubscribeToEventsResponse{
+		sendMutex.Lock()
+		sendErr := eventServer.SendMsg(&hydrapb.SubscribeToEventsResponse{
 			SwampName:       eventSwampName,
 			Treasure:        convertedTreasure,
 			Status:          convertedStatusType,
 			OldTreasure:     convertedOldTreasure,
 			DeletedTreasure: convertedDeletedTreasure,
 			EventTime:       convertedEventTime,
-		}); sendErr != nil {
+		})
+		sendMutex.Unlock()
+		if sendErr != nil {
 			slog.Error("failed to send the event to the client",
 				"error", sendErr.Error(),
 				"swamp_name", eventSwampName)
